@@ -8,18 +8,25 @@ namespace Xs.C10
 open Xs.Http Xs.Wire
 
 /-- content written through POST /cas is returned byte for byte under the reported hash -/
-theorem cas_post_then_get (s : Srv) (r : Request) (hb : r.body.isEmpty = false)
+theorem cas_post_then_get (s : Srv) (r : Request) (hb : r.body.isEmpty = false) (hok : r.bodyBroken = false)
     (hfree : ∀ b', casGet s.cas r.bodyHash = some b' → b' = r.body) :
     (handleCasPost s r).2 = .hashText r.bodyHash ∧
     casGet (handleCasPost s r).1.cas r.bodyHash = some r.body := by
-  unfold handleCasPost
-  simp only [hb, Bool.false_eq_true, if_false]
+  unfold handleCasPost handleCasPostRead
+  simp only [hb, hok, Bool.false_eq_true, if_false]
   exact ⟨trivial, casGet_casPut_self _ _ _ hfree⟩
 
 /-- an empty POST /cas is rejected -/
 theorem cas_post_empty_rejected (s : Srv) (r : Request) (hb : r.body.isEmpty = true) :
     handleCasPost s r = (s, .badRequest) := by
-  simp [handleCasPost, hb]
+  simp [handleCasPost, handleCasPostRead, hb]
+
+/-- a body that cannot be read to its end writes nothing: no content, no frame -/
+theorem broken_body_writes_nothing (s : Srv) (r : Request) (topic : List Nat) (ttl : TTL) (ctx : Nat)
+    (hb : r.bodyBroken = true) :
+    handleCasPost s r = (s, .badRequest) ∧ handleAppend s r topic ttl ctx = (s, .badRequest) ∧
+    handleImport s r = (s, .badRequest) := by
+  simp [handleCasPost, handleAppend, handleImport, hb]
 
 /-- POST /{topic}: no body ⇒ no hash; a body ⇒ the frame carries the content's hash and the
     content is in the CAS in the same state in which the frame first exists -/
@@ -39,8 +46,9 @@ theorem content_never_lost (s : Srv) (r : Request) (h : String) (b : List Nat)
 /-- the hash is a function of the bytes alone: the model takes it from the request's body
     (`bodyHash`), never from the route, the topic, the context or the server state -/
 theorem hash_depends_only_on_body (s s2 : Srv) (r r2 : Request) (hb : r.body = r2.body)
-    (hh : r.bodyHash = r2.bodyHash) (hne : r.body.isEmpty = false) :
+    (hh : r.bodyHash = r2.bodyHash) (hne : r.body.isEmpty = false)
+    (hok : r.bodyBroken = false) (hok2 : r2.bodyBroken = false) :
     (handleCasPost s r).2 = (handleCasPost s2 r2).2 := by
-  simp [handleCasPost, ← hb, ← hh, hne]
+  simp [handleCasPost, handleCasPostRead, ← hb, ← hh, hne, hok, hok2]
 
 end Xs.C10
